@@ -30,6 +30,7 @@ type harnessCfg struct {
 	TimeNow    string
 	seed       int64
 	Stall      bool
+	TimeFixed  bool
 }
 
 func (c *harnessCfg) valLimit() int {
